@@ -37,7 +37,7 @@ def marked(r):
         return False
 
 
-def regex_member(run, mid, key, r, comp, N, variant=None, spec=None, states=True, vtag="", timeout=60):
+def regex_member(run, mid, key, r, comp, N, variant=None, spec=None, states=True, vtag="", timeout=120):
     """all obligations of one family member. comp: result of `ax compile` for it."""
     tag = f"A/{mid}{vtag}"
     bound = f"word length <= {N}; markers <= 64"
@@ -76,7 +76,7 @@ def regex_member(run, mid, key, r, comp, N, variant=None, spec=None, states=True
         run.log(f"{ob.status:12s} {ob.id} {ob.detail[:120]}")
         return
     auto = A.Auto(comp["automaton"])
-    determinism(run, f"{tag}:det", key, auto.raw, FUNCS[2:], "dumped transition list of the compiled automaton")
+    determinism(run, f"{tag}:det", key, auto.raw, FUNCS[2:], "dumped transition list of the compiled automaton", dict(spec or {"r": r}))
     t0 = time.time()
     try:
         A.decide_equiv(run, ob, r, auto, N, variant, spec, timeout=timeout, cross=2)
@@ -119,7 +119,7 @@ def regex_member(run, mid, key, r, comp, N, variant=None, spec=None, states=True
             ob2.set(INCONCLUSIVE, f"engine error {ex!r}")
 
 
-def determinism(run, oid, key, rows, functions, what):
+def determinism(run, oid, key, rows, functions, what, origin):
     """uniqueness of the marker sequence of an accepted word = one image per (state, byte) in the LIST of
     transitions (for a shipped file: the list as serialized, before it is collected into a map)."""
     ob = core.Ob(oid, "A", f"{what}: one (target, marker) per (state, byte), hence one marker sequence per accepted word", functions=functions,
@@ -140,7 +140,7 @@ def determinism(run, oid, key, rows, functions, what):
             srt = sorted(rows)
             i = r.model.get("i", 0)
             # replay = the two entries themselves
-            path = run.write_replay(ob, dict(kind="duplicate-key", what=what, entries=srt[max(0, i - 1):i + 3]))
+            path = run.write_replay(ob, dict(kind="duplicate-key", what=what, origin=origin, entries=srt[max(0, i - 1):i + 3]))
             return ob.set(VIOLATION, f"{what}: entries {srt[max(0, i - 1):i + 3]} share a (state, byte) key", solver=r.solver, replay=path)
         if r.status != "unsat":
             return ob.set(INCONCLUSIVE, f"solver {r.status} {r.raw[:160]}")
@@ -281,7 +281,7 @@ def shipped_member(run, ent, timeout=120):
         buf = open(path, "rb").read()
         try:
             d, used = parse_serialized(buf)
-            determinism(run, f"A/shipped[{name}]:det", f"shipped:{name}", d["transitions"], fn[:2] + [fn[3]], f"transition list serialized in automaton_cache/{name} (before it is collected into a map)")
+            determinism(run, f"A/shipped[{name}]:det", f"shipped:{name}", d["transitions"], fn[:2] + [fn[3]], f"transition list serialized in automaton_cache/{name} (before it is collected into a map)", {"file": name})
             same = (d["nb_states"] == ship.nb and d["initial_state"] == ship.init and sorted(d["final_states"]) == sorted(ship.final)
                     and sorted(d["transitions"]) == sorted(ship.raw))
             rt = serialize(ent["shipped"]) == buf
@@ -428,7 +428,7 @@ def check(run):
     translator_validation(run, members, comps)
 
 
-KINDS = ("regex-word", "regex-panic", "shipped-differs", "shipped-bytes")
+KINDS = ("regex-word", "regex-panic", "shipped-differs", "shipped-bytes", "duplicate-key")
 
 
 def replay(payload):
@@ -458,5 +458,17 @@ def replay(payload):
         ok = sorted(d["transitions"]) == sorted(ent["shipped"]["transitions"]) and used == len(buf) and serialize(ent["shipped"]) == buf
         print("bytes consistent:", ok)
         return 0 if ok else 1
+    if kind == "duplicate-key":
+        o = payload["origin"]
+        if "file" in o:
+            rows = parse_serialized(open(os.path.join(core.REPO, "circuits/src/parsing/automaton_cache", o["file"]), "rb").read())[0]["transitions"]
+        elif "lib" in o:
+            rows = [e for e in A.ax_lib() if e["name"] == o["lib"]][0]["fresh"]["transitions"]
+        else:
+            rows = A.ax_compile([("x", o["r"])])["x"]["automaton"]["transitions"]
+        keys = [(s, b) for s, b, _, _ in rows]
+        dup = len(keys) != len(set(keys))
+        print("duplicate (state, byte) keys in the transition list:", dup)
+        return 1 if dup else 0
     print("unknown replay kind", kind)
     return 2
